@@ -102,8 +102,22 @@ func c01(args []string) error {
 				if r.Intn(4) == 0 && sb.NbSequences() > 0 { // same name and same sequence as an existing row
 					k := r.Intn(sb.NbSequences())
 					n, _ = sb.GetSequenceNameById(k)
-					if r.Intn(2) == 0 {
+					switch r.Intn(3) {
+					case 0:
 						s, _ = sb.GetSequenceById(k)
+					case 1: // same residues up to letter case
+						s0, _ := sb.GetSequenceById(k)
+						b := []byte(s0)
+						for q := range b {
+							if r.Intn(2) == 0 {
+								if b[q] >= 'a' && b[q] <= 'z' {
+									b[q] -= 32
+								} else if b[q] >= 'A' && b[q] <= 'Z' {
+									b[q] += 32
+								}
+							}
+						}
+						s = string(b)
 					}
 				}
 				opterm = fmt.Sprintf("BAdd %s %s", coqStr(n), coqStr(s))
